@@ -129,4 +129,159 @@ Section Step.
         exists a. cbn [nth_anc push]. rewrite P. split; [exact A|]. rewrite R. f_equal. f_equal. lia.
       + inversion W; subst. replace (ti - si) with 0 by lia. cbn. exists new. rewrite N.sub_0_r. split; reflexivity.
   Qed.
+
+  (** * List helpers *)
+  Lemma last_app_ne {A} (l1 l2 : list A) d : l2 <> [] -> last (l1 ++ l2) d = last l2 d.
+  Proof.
+    intro NE. induction l1 as [|a l1 IH]; [reflexivity|].
+    cbn [app]. remember (l1 ++ l2) as m eqn:E. destruct m as [|b m].
+    - symmetry in E. apply app_eq_nil in E. destruct E; contradiction.
+    - exact IH.
+  Qed.
+
+  Lemma last_indep {A} (l : list A) d d' : l <> [] -> last l d = last l d'.
+  Proof.
+    induction l as [|a l IH]; [congruence|]. intros _. destruct l as [|b l]; [reflexivity|].
+    cbn [last]. apply IH. discriminate.
+  Qed.
+
+  Lemma last_skipn {A} t (l : list A) d : (t < length l)%nat -> last (skipn t l) d = last l d.
+  Proof.
+    revert l; induction t as [|t IH]; intros l H; [reflexivity|].
+    destruct l as [|a l]; [cbn in H; lia|]. cbn [skipn]. cbn in H.
+    rewrite IH by lia. destruct l as [|b l]; [cbn in H; lia | reflexivity].
+  Qed.
+
+  Lemma skipn_nil_iff {A} t (l : list A) : skipn t l = [] <-> (length l <= t)%nat.
+  Proof.
+    revert l; induction t as [|t IH]; intros [|a l]; cbn; split; intro H; try reflexivity; try lia; try discriminate.
+    - apply IH in H. lia.
+    - apply IH. lia.
+  Qed.
+
+  Lemma deadpath_store ix h k D : DeadPath hash g0 ix k D -> (forall d, In d D -> key h <> key d) ->
+    DeadPath hash g0 (iset (key h) h ix) k D.
+  Proof.
+    revert k; induction D as [|d D IH]; intros k H N; [exact H|].
+    cbn in *. destruct H as [H1 [H2 [H3 H4]]]. split; [exact H1|]. split.
+    - rewrite iget_store. destruct (hkey_eqb_spec k (key h)) as [K|_]; [|exact H2].
+      exfalso. apply (N d (or_introl eq_refl)). congruence.
+    - split; [exact H3|]. apply IH; [exact H4 | intros d' I; apply N; right; exact I].
+  Qed.
+
+  (** * Re-establishing the invariant for the spliced chain
+      [ancs h J ++ skipn t L]: the first [J]+1 ancestors of the new head followed by the old
+      main chain from its [t]-th element on. *)
+  Section Rebuild.
+    Variable s1 : state.
+    Variable L D : list header.
+    Variable h : header.
+    Hypothesis I1 : Inv s1 L D.
+    Hypothesis Wh : wf_hdr h.
+    Hypothesis Hg0 : g0 <= h_num h.
+    Hypothesis Hfresh : forall a, Stored (idx s1) a -> h_num a = h_num h ->
+                                  to_hash (h_root a) = to_hash (h_root h) -> key a = key h.
+    Hypothesis Hnoalias : forall a, iget (key h) (idx s1) = Some a -> a = h.
+    Hypothesis Hdead : forall d, In d D -> key h <> key d.
+    Let old := head s1.
+    Let ix1 := idx s1.
+    Let ix2 := iset (key h) h ix1.
+    Let rm2 := rset (to_hash (h_root h), h_num h) (key h) (rmain s1).
+    Variable J t : nat.
+    Variable new2 : header.
+    Variable c' : cmap.
+    Hypothesis A1 : nth_anc ix2 h J = Some new2.
+    Hypothesis A2 : parent_of ix2 new2 = nth_error L t.
+    Hypothesis A3 : h_num new2 + N.of_nat t = h_num old + 1.
+    Hypothesis A4 : (t <= length L)%nat.
+    Hypothesis A5 : t = length L -> pkey new2 = pkey (last L old).
+    Let Nn := ancs ix2 h J.
+    Hypothesis K1 : forall a, In a Nn -> cget (r0, h_num a) c' = Some (cstate_of a).
+    Hypothesis K2 : forall r k, (forall a, In a Nn -> k <> h_num a) -> cget (r, k) c' = cget (r, k) (cons s1).
+    Hypothesis K3 : forall r k c, cget (r, k) c' = Some c ->
+                      (r = r0 /\ exists a, In a Nn /\ k = h_num a) \/ cget (r, k) (cons s1) = Some c.
+    Hypothesis K4 : NoDup (map fst c').
+    Let s' := {| head := h; chain_id := chain_id s1; trusting := trusting s1; idx := ix2; rmain := rm2; cons := c' |}.
+    Let L' := Nn ++ skipn t L.
+
+    Lemma rebuild_inv : Inv s' L' D /\ low h L' = low old L.
+    Proof.
+      pose proof (inv_wf _ _ _ _ _ _ I1) as WF1. fold ix1 in WF1.
+      assert (WF2 : idx_wf ix2) by (apply store_wf; assumption).
+      destruct (inv_head_wf _ _ _ _ _ _ I1) as [_ [Hold _]]. fold old in Hold.
+      pose proof (inv_main _ _ _ _ _ _ I1) as M1. fold ix1 old in M1.
+      destruct Wh as [Hrev [Hh Hgl]].
+      assert (S2h : Stored ix2 h) by apply store_stored_h.
+      destruct (ancs_nth _ _ _ _ A1) as [LenN NthN]. fold Nn in LenN, NthN.
+      assert (NumN : forall b, In b Nn -> h_num new2 <= h_num b <= h_num h /\ h_num b < two63).
+      { intros b Ib. exact (ancs_nums _ _ _ _ _ _ _ WF2 Hh A1 Ib). }
+      assert (InNew2 : In new2 Nn).
+      { apply (nth_error_In Nn J). rewrite NthN by lia. exact A1. }
+      pose proof (main_low _ _ _ _ _ WF1 Hold M1) as ML.
+      destruct (main_cons _ _ _ M1) as [l EqL].
+      assert (LenL : (1 <= length L)%nat) by (rewrite EqL; cbn; lia).
+      assert (LowNew2 : low old L <= h_num new2) by lia.
+      (* elements of the kept tail *)
+      assert (Tail : forall b u, nth_error (skipn t L) u = Some b -> In b L /\ h_num b < h_num new2 /\ h_num b < two63).
+      { intros b u E. rewrite nth_error_skipn in E.
+        destruct (main_num _ _ _ _ _ WF1 Hold M1 _ _ E) as [Q1 Q2].
+        split; [eapply nth_error_In; exact E|]. split; [lia | exact Q2]. }
+      (* the lowest element is unchanged *)
+      assert (LastEq : last L' h = last L old \/ (t = length L /\ last L' h = new2)).
+      { destruct (Nat.eq_dec t (length L)) as [Et|Nt].
+        - right. split; [exact Et|]. unfold L'. rewrite (proj2 (skipn_nil_iff t L)) by lia. rewrite app_nil_r.
+          unfold Nn. apply ancs_last. exact A1.
+        - left. unfold L'. assert (NE : skipn t L <> []) by (intro Z; apply skipn_nil_iff in Z; lia).
+          rewrite last_app_ne by exact NE. rewrite last_skipn by lia. apply last_indep. rewrite EqL; discriminate. }
+      assert (LowEq : low h L' = low old L).
+      { unfold low. destruct LastEq as [->|[Et ->]]; [reflexivity|].
+        fold (low old L). lia. }
+      assert (BotEq : pkey (last L' h) = pkey (last L old)).
+      { destruct LastEq as [->|[Et ->]]; [reflexivity | apply A5; exact Et]. }
+      (* the new main chain *)
+      assert (M2 : Main ix2 h L').
+      { intro i. unfold L'. destruct (Nat.le_gt_cases i J) as [Hi|Hi].
+        - rewrite nth_error_app1 by lia. symmetry. apply NthN. exact Hi.
+        - rewrite nth_error_app2 by lia. rewrite LenN.
+          replace i with (J + S (i - S J))%nat at 1 by lia.
+          rewrite nth_anc_add, A1. cbn [EthChain.nth_anc]. rewrite A2. rewrite nth_error_skipn.
+          destruct (nth_error L t) as [q|] eqn:Eq.
+          + destruct (main_num _ _ _ _ _ WF1 Hold M1 _ _ Eq) as [Q1 Q2].
+            rewrite store_anc by (try assumption; lia).
+            rewrite <- (M1 (t + (i - S J))%nat). rewrite nth_anc_add, M1, Eq. reflexivity.
+          + symmetry. apply nth_error_None. apply nth_error_None in Eq. lia. }
+      split; [|exact LowEq].
+      constructor; cbn [idx cons rmain head s'].
+      - exact WF2.
+      - exact M2.
+      - exact S2h.
+      - (* inv_cdom *) intros r k c E. rewrite LowEq. destruct (K3 _ _ _ E) as [[-> [a [Ia ->]]]|E1].
+        + split; [reflexivity|]. destruct (NumN _ Ia) as [[Q _] _]. lia.
+        + exact (inv_cdom _ _ _ _ _ _ I1 _ _ _ E1).
+      - (* inv_cmain *) intros a Ia. unfold L' in Ia. apply in_app_or in Ia. destruct Ia as [Ia|Ia]; [apply K1; exact Ia|].
+        apply In_nth_error in Ia. destruct Ia as [u Eu]. destruct (Tail _ _ Eu) as [InL [Lt _]].
+        rewrite K2; [apply (inv_cmain _ _ _ _ _ _ I1); exact InL|].
+        intros b Ib. destruct (NumN _ Ib) as [[Q _] _]. lia.
+      - exact K4.
+      - (* inv_closure *) intros a Sa Ha. rewrite LowEq in Ha.
+        destruct (store_inv_stored _ _ _ Sa) as [->|Sa1].
+        + pose proof (main_low _ _ _ _ _ WF2 Hh M2) as ML2. rewrite LowEq in ML2.
+          assert (Len2 : (2 <= length L')%nat) by lia.
+          pose proof (M2 1%nat) as Q. cbn in Q.
+          destruct (parent_of ix2 h); [discriminate|].
+          symmetry in Q. apply nth_error_None in Q. lia.
+        + pose proof (inv_closure _ _ _ _ _ _ I1 a Sa1 Ha) as C. fold ix1 in C.
+          unfold parent_of in *. destruct (iget _ ix1) as [q|] eqn:Eq; [|congruence].
+          rewrite (store_mono ix1 h Hnoalias _ _ Eq). discriminate.
+      - (* inv_rmain *) intros a Sa Ha. rewrite LowEq in Ha. unfold rm2, rset, rget. rewrite rget_rset.
+        destruct (store_inv_stored _ _ _ Sa) as [->|Sa1].
+        + rewrite hkey_eqb_refl. reflexivity.
+        + destruct (hkey_eqb_spec (to_hash (h_root a), h_num a) (to_hash (h_root h), h_num h)) as [K|_].
+          * inversion K as [[Kr Kn]]. rewrite (Hfresh a Sa1 Kn Kr). reflexivity.
+          * exact (inv_rmain _ _ _ _ _ _ I1 a Sa1 Ha).
+      - (* inv_low *) intros a Sa. destruct (store_inv_stored _ _ _ Sa) as [->|Sa1]; [exact Hg0|].
+        exact (inv_low _ _ _ _ _ _ I1 a Sa1).
+      - (* inv_dead *) rewrite BotEq. apply deadpath_store; [exact (inv_dead _ _ _ _ _ _ I1) | exact Hdead].
+    Qed.
+  End Rebuild.
 End Step.
